@@ -78,18 +78,27 @@ def h_solver(E, shape):
     tol = E.real("deriv_tol", lo=0, lo_strict=True)
     eps = 2.0 ** -20
     which = shape.get("which", "CheckAll")
-    params = P.Params(deriv_tol=tol, deriv_pert=eps, deriv_check=P.DerivCheck[which])
+    kw = {}
+    sc = shape.get("scaling")  # concrete power-of-two weights dict(vw=int, cw=int, ow=int): the check runs on the scaled problem
+    vw, cw, ow = (sc["vw"], sc["cw"], sc["ow"]) if sc else (0, 0, 0)
+    if sc:
+        Scaling = boot.mod("scale").Scaling
+        kw = dict(scaling=Scaling(np.array([vw], dtype=int), np.array([cw], dtype=int), ow), scaling_type=P.ScalingType.Custom)
+    params = P.Params(deriv_tol=tol, deriv_pert=eps, deriv_check=P.DerivCheck[which], **kw)
     user, spec = common.make_problem(E, ["free"], ["eq0"], fmt=shape.get("fmt", "coo"))
     solver = S.Solver(user, params)
     solver.evaluator = solver.transform.evaluator
-    x = E.real("x")
-    y = E.real("y")
-    xp = x + eps
-    f0, f1 = E.uf("f", x), E.uf("f", xp)
-    g0, g1 = E.uf("g0", x), E.uf("g0", xp)
-    c0, c1 = E.uf("c0", x), E.uf("c0", xp)
-    J0, J1 = E.uf("J0_0", x), E.uf("J0_0", xp)
-    H = E.uf("H0_0", x, y)
+    xs = E.real("x")
+    ys = E.real("y")
+    # reference change of variables (C04): x_user = 2^-vw x, y_user = 2^(cw-ow) y; the checker differences the
+    # functions of the problem it is given (the scaled one), so the oracle is stated on the reference-scaled values
+    x, xp, y = xs * 2.0 ** -vw, (xs + eps) * 2.0 ** -vw, ys * 2.0 ** (cw - ow)
+    f0, f1 = E.uf("f", x) * 2.0 ** ow, E.uf("f", xp) * 2.0 ** ow
+    g0, g1 = E.uf("g0", x) * 2.0 ** (ow - vw), E.uf("g0", xp) * 2.0 ** (ow - vw)
+    c0, c1 = E.uf("c0", x) * 2.0 ** cw, E.uf("c0", xp) * 2.0 ** cw
+    J0, J1 = E.uf("J0_0", x) * 2.0 ** (cw - vw), E.uf("J0_0", xp) * 2.0 ** (cw - vw)
+    H = E.uf("H0_0", x, y) * 2.0 ** (ow - 2 * vw)
+    x, y = xs, ys
 
     def loose(dv, a, b):
         fdv = (b - a) / eps
